@@ -295,15 +295,30 @@ func registerResolver() {
 	c11 := func(n, form int64) Shard {
 		return sh("HarnessC11", fmt.Sprintf("histories of %d operations from {Call target1, Call target2, Convert, Redefine}, run-once converter in %s form, symbolic failure", n, formNames[form]), 0, n, form)
 	}
+	c11t := func(form, nOut, hasErr int64) Shard {
+		return sh("HarnessC11Target", fmt.Sprintf("the run-once function is the target of three direct calls: %s form, %d outputs, error result %d; value-set accessors used on the results symbolically", formNames[form], nOut, hasErr), 0, form, nOut, hasErr)
+	}
+	var c11tAll []Shard
+	for form := int64(0); form <= 3; form++ {
+		for nOut := int64(0); nOut <= 2; nOut++ {
+			for hasErr := int64(0); hasErr <= 1; hasErr++ {
+				if form == 2 && nOut == 0 {
+					continue // a pointer-to-struct result needs a field
+				}
+				c11tAll = append(c11tAll, c11t(form, nOut, hasErr))
+			}
+		}
+	}
 	register(&PropSpec{
 		ID: "C11", Pkg: "argmapper",
 		Quick: []Shard{c11(2, 1), c11(3, 3), c11(2, 2),
 			sh("HarnessC11Par", "two goroutines calling the same target, run-once converter struct form, <=3 context switches", 0, 1, 0, 3), sh("HarnessC11Par", "goroutine A calls the target, B Converts, run-once converter *struct form, <=3 context switches", 0, 2, 1, 3),
-			sh("HarnessC11Within", "two needs within one call, struct form", 0, 1), sh("HarnessC11Within", "two needs within one call, built form", 0, 3)},
-		Thorough: []Shard{c11(3, 1), c11(4, 3), c11(3, 2), c11(5, 1),
+			sh("HarnessC11Within", "two needs within one call, struct form", 0, 1), sh("HarnessC11Within", "two needs within one call, built form", 0, 3),
+			c11t(0, 0, 0), c11t(0, 2, 1), c11t(1, 1, 0), c11t(3, 2, 0), c11t(1, 0, 1), c11t(2, 2, 1)},
+		Thorough: append(c11tAll, c11(3, 1), c11(4, 3), c11(3, 2), c11(5, 1),
 			sh("HarnessC11Par", "two goroutines calling the same target, run-once converter struct form, <=6 context switches", 0, 1, 0, 6), sh("HarnessC11Par", "target/Convert, run-once converter built form, <=6 context switches", 0, 3, 1, 6), sh("HarnessC11Par", "two goroutines, positional-result... *struct form, <=5 context switches", 0, 2, 0, 5),
-			sh("HarnessC11Within", "two needs within one call, struct form", 0, 1), sh("HarnessC11Within", "two needs within one call, built form", 0, 3), sh("HarnessC11Within", "two needs within one call, *struct form", 0, 2)},
-		Covers:   []string{"C11.history-checked", "C11.later-use-checked", "C11.cached-error-checked", "C11.within-call-checked", "C11.par-checked"},
+			sh("HarnessC11Within", "two needs within one call, struct form", 0, 1), sh("HarnessC11Within", "two needs within one call, built form", 0, 3), sh("HarnessC11Within", "two needs within one call, *struct form", 0, 2)),
+		Covers:   []string{"C11.target-checked", "C11.history-checked", "C11.later-use-checked", "C11.cached-error-checked", "C11.within-call-checked", "C11.par-checked"},
 		Bounds:   []string{"concurrent clause: two goroutines each performing one call that needs the shared run-once converter, all interleavings with <=3 (quick) / 6 (thorough) context switches (vnPar)", "sequential histories of <=3 (quick) / 5 (thorough) operations chosen symbolically from Call on two targets, Convert and Redefine, all needing one run-once converter (directly or through a second converter), fresh symbolic arguments per operation, symbolic failure of the first execution", "repeated needs within one call"},
 		Outside:  []string{"interleavings beyond two goroutines x one call each and beyond the stated number of context switches; handover only at mutex operations and at accesses to assigned fields of the shared objects", "histories longer than 5"},
 		Assume:   common,
